@@ -1,5 +1,5 @@
 (* C08 — diagnosis of the obligations on regenerated tables: the concrete offending entries, independent of any proof. *)
-From V Require Import Base.Common Base.C08_Str Gen.C08Status Model.C08_Status Base.C08_Schema Gen.C08Tags Model.C08_Fmap.
+From V Require Import Base.Common Base.C08_Str Gen.C08Status Model.C08_Status Base.C08_Schema Gen.C08Tags Model.C08_Codec Model.C08_Fmap Model.C08_Reuse.
 Open Scope string_scope.
 Open Scope list_scope.
 Open Scope N_scope.
@@ -33,3 +33,14 @@ Definition diag_tags_json_wellformed := Eval vm_compute in
 Print diag_tags_json_wellformed.
 Definition size_tag_table := Eval vm_compute in length api_schema.
 Print size_tag_table.
+
+(* the LogOp rows regenerated from consensus/raft/log_op.go: the encodable fields must be TagCtx, Cid, Type (in that order, as
+   logop_val lays them out) with distinct keys and known types; every field left undescribed (the span context) must be
+   `omitempty`; the Pin rows must be in the order pin_to_val uses *)
+Definition diag_raft_logop_table_wellformed := Eval vm_compute in
+  (if list_eqb String.eqb (map f_go raft_logop_fields) ["TagCtx"; "Cid"; "Type"] then [] else "<LogOp fields>" :: map f_go raft_logop_fields)
+  ++ map fst (filter (fun e : string * bool => negb (snd e)) raft_logop_opaque)
+  ++ (if struct_ok Msgpack raft_schema raft_logop_fields then [] else ["<LogOp keys / types>"])
+  ++ (if pin_layout_ok then [] else ["<Pin field order>"])
+  ++ (if snodup (map fst raft_schema) then [] else ["<LogOp is also a struct of the api table>"]).
+Print diag_raft_logop_table_wellformed.
